@@ -7,8 +7,8 @@ from . import verify_common as vc
 from .common import Oracle, Suite, errname, hx, merge
 from .formats_common import cps
 
-GEN_UNITS = ["Verify", "Handlers", "ShaCrypt", "B64", "FormatDigests"]
-LEAN_TARGETS = ["PasslibVerif.Props.C05"]
+GEN_UNITS = ["Verify", "Handlers", "ShaCrypt", "B64", "FormatDigests", "CryptoDigest", "SaltGen"]
+LEAN_TARGETS = ["PasslibVerif.Props.C05", "PasslibVerif.Props.C05Util"]
 ASSUMPTIONS = [
     "that a format's algorithm reads only its first n bytes (ReadsOnly n) is a fact about the algorithm: a theorem for bcrypt's key schedule (C11, 72 bytes), checked on the real hashers for DES-based and LM/cisco formats",
     "the statement lists of validate_secret, TruncateMixin._check_truncate_policy, GenericHandler.hash / verify are pinned by the translator unit Verify",
@@ -258,7 +258,12 @@ def correspond(ctx):
                     ans = "err " + errname(e)
                 s_m.add_raw(f"vfy {name} hash {sec} 97,98 {1000 if 'sha' in name else 0}", ans, name + ":nul")
     oracle(ctx, o)
-    return merge(s_m, o)
+    # the helpers under the crypt() back ends: utf8_truncate / utf8_repeat_string / repeat_string / safe_crypt / test_crypt (suite `putil`)
+    from . import c05_util
+
+    s_u = Suite(ctx, "c05-util-model")
+    c05_util.model_suite(ctx, s_u)
+    return merge(s_m, o, s_u)
 
 
 def search(ctx, broken, seeds):
